@@ -244,8 +244,8 @@ Definition needs_reindex (s : seg) : bool :=
 Definition reindex (p : params) (newv : ver) (s : seg) : res (seg * list item) :=
   do v <- open_log_reader s;
   let items := derive p v (srecs s) in
-  let iv := match sidx s with Some (V2, _) => V2 | _ => newv end in
-  Ok (set_idx s (Some (iv, items)), items).
+  (* index.Write goes through a temporary file that replaces whatever was there: version newv *)
+  Ok (set_idx s (Some (newv, items)), items).
 
 Definition ensure_index (p : params) (newv : ver) (s : seg) : res (seg * list item) :=
   if needs_reindex s then reindex p newv s
